@@ -53,8 +53,9 @@ std::vector<Edge*> RealCommandRunner::GetActiveEdges() {
 }
 
 void RealCommandRunner::Abort() {
-  ClearJobTokens();
+  // Give the tokens back only once the commands that ran on them are gone.
   subprocs_.Clear();
+  ClearJobTokens();
 }
 
 size_t RealCommandRunner::CanRunMore() const {
